@@ -249,7 +249,11 @@ impl MDBInMemoryShard {
 
         let full_file_name = directory.join(shard_file_name(&shard_hash));
 
+        #[cfg(xet_verif)]
+        utils::verif::crash_point("shard_before_rename", &full_file_name.to_string_lossy());
         std::fs::rename(&temp_file_name, &full_file_name)?;
+        #[cfg(xet_verif)]
+        utils::verif::crash_point("shard_after_rename", &full_file_name.to_string_lossy());
 
         debug!("Wrote out in-memory shard to {full_file_name:?}.");
 
